@@ -129,13 +129,16 @@ Definition spec_wire (ty : ptype) (t : target) : wire :=
 
 Definition ptype_tls (ty : ptype) : bool := match ty with THttps => true | _ => false end.
 
-Definition spec_route (cfg : config) (rules : list rule) (t : target) : outcome :=
-  match spec_hop cfg t with
+Definition spec_route_hop (rules : list rule) (h : hop) (t : target) : outcome :=
+  match h with
   | HFail => OFail
   | HDirect => OSent (spec_redirect rules (spec_target_addr t))
                      (match t_kind t with Plain => str_eqb (t_scheme t) (b "https") | Connect => false end) WDirect
   | HProxy ty hp => OSent (spec_redirect rules hp) (ptype_tls ty) (spec_wire ty t)
   end.
+
+Definition spec_route (cfg : config) (rules : list rule) (t : target) : outcome :=
+  spec_route_hop rules (spec_hop cfg t) t.
 
 (* the first hop as a party: address, whether TLS is spoken to it, and what it is used as
    (direct peer / HTTP proxy / SOCKS5 proxy) — what must agree between a plain request and a CONNECT *)
